@@ -28,6 +28,9 @@ struct RawRec {
     rec: Recorder,
     events: Rc<RefCell<Vec<Ev>>>,
     polls: Rc<RefCell<Vec<u64>>>,
+    /// `Some(k)`: the writer emits a tracing event of its own on every k-th event it handles.
+    log_every: Option<usize>,
+    logged: u32,
 }
 
 impl Writer<SimWorld> for RawRec {
@@ -37,6 +40,18 @@ impl Writer<SimWorld> for RawRec {
         self.core.progress();
         self.events.borrow_mut().push(e);
         self.polls.borrow_mut().push(self.core.stats.borrow().root_polls);
+        // a writer that logs through tracing itself (outside every scenario span: the collector
+        // forwards such a log to all scenarios it considers running)
+        // (never in reaction to a Log event, and only a few times per run: every such log comes back
+        // as one Log event per running scenario)
+        if let Some(k) = self.log_every {
+            let is_log = matches!(self.events.borrow().last().map(|e| &e.k), Some(K::Log(_)));
+            let n = self.events.borrow().len();
+            if !is_log && n % k == 0 && self.logged < 8 {
+                self.logged += 1;
+                tracing::info!("consumer-log {n}");
+            }
+        }
     }
 }
 
@@ -54,7 +69,7 @@ pub fn run_world_t(plan: &Rc<Plan>) -> Result<History, String> {
     let plog = Rc::clone(&stream.log);
     let events = Rc::new(RefCell::new(Vec::new()));
     let polls = Rc::new(RefCell::new(Vec::new()));
-    let wr = RawRec { core: Rc::clone(&core), rec: Recorder::new(&core), events: Rc::clone(&events), polls: Rc::clone(&polls) };
+    let wr = RawRec { core: Rc::clone(&core), rec: Recorder::new(&core), events: Rc::clone(&events), polls: Rc::clone(&polls), log_every: (plan.seed % 3 == 0).then(|| 2 + (plan.seed / 3 % 5) as usize), logged: 0 };
     let opts = cli::Opts { re_filter: None, tags_filter: None, parser: cli::Empty, runner: runa::build_cli(plan), writer: cli::Empty, custom: cli::Empty };
     let cuc = Cucumber::<SimWorld, _, (), _, _, cli::Empty>::custom(SimParser(stream), runa::build_runner(plan), wr)
         .configure_and_init_tracing(format::DefaultFields::new(), Format::default().without_time().with_ansi(false), |layer| {
@@ -143,6 +158,9 @@ pub fn c20(a: &Analysis<'_>, out: &mut Vec<Violation>) {
     let mut seen: BTreeMap<String, Vec<usize>> = BTreeMap::new();
     for (i, e) in evs.iter().enumerate() {
         if let K::Log(msg) = &e.k {
+            if msg.contains("consumer-log") {
+                continue; // emitted by the writer, outside every scenario span: not this property's business
+            }
             let mut rest = msg.as_str();
             let mut any = false;
             while let Some(p) = rest.find("logtok") {
